@@ -412,7 +412,8 @@ Lemma central_op2 key iv st ks col :
   wf_C44 i = true -> prop_C44 i (run_C44 i) = true.
 Proof.
   intros i Hwf. subst i. cbn [wf_C44] in Hwf. destruct (dec_sess st) as [s|] eqn:Es; [|discriminate].
-  repeat (apply andb_true_iff in Hwf; let W := fresh "W" in destruct Hwf as [Hwf W]).
+  apply andb_true_iff in Hwf; destruct Hwf as [Hwf W]. apply andb_true_iff in Hwf; destruct Hwf as [Hwf W0].
+  apply andb_true_iff in Hwf; destruct Hwf as [Hwf W1].
   apply Z.eqb_eq in W1, W0. apply Z.leb_le in W.
   unfold run_C44, prop_C44. rewrite Es. unfold encrypt_ticket, cmac, cctr, enc_key.
   set (ct := xor_bytes (marshal s) ks).
@@ -453,3 +454,14 @@ Proof.
   intros i Hwf Hkf. pose proof Hwf as Hs. unfold wf_C44 in Hs. crush_shape Hs;
     first [ apply central_op1; exact Hwf | apply central_op2; exact Hwf | apply central_op3; [exact Hwf|exact Hkf] ].
 Qed.
+
+(* ---- generated cases (seed 1) satisfy wf_C44 ---- *)
+Definition ex_own : val := (VL [(VZ 1); (VB [74;193;52;108;59;6;30;49;211;161;72;175;208;129;255;202;27;149;84;214;186;203;55;45;194;155;190;3;195;31;234;180]); (VB [215;221;7;17;198;32;144;181;205;25;212;218;95;136;69;113;138;99;164;195;143;132;117;171;97;250;69;160;71;125;196;136;164;150;22;171;44;197;164;16;144;48;198;150;189;15;134;89;205;85;251;66;118;183;22;83]); (VB [97;250;69;160;71;125;196;136;164;150;22;171;44;197;164;16;144;48;198;150;189;15;134;89;205;85;251;66;118;183;22;83]); (VB [137;97;164;246;143;132;117;171]); (VB [74;193;52;108;59;6;30;49;211;161;72;175;208;129;255;202;27;149;84;214;186;203;55;45;194;155;190;3;195;31;234;180]); (VB [215;221;7;17;198;32;144;181;205;25;212;218;95;136;69;113;138;99;164;195;143;132;117;171;97;250;69;160;71;125;196;136;164;150;22;171;44;197;164;16;144;48;198;150;189;15;134;89;205;85;251;66;118;183;22;83]); (VL [(VZ 770); (VZ 53); (VB []); (VL [])])]).
+Definition ex_bitflip : val := (VL [(VZ 1); (VB [48;49;50;51;52;53;54;55;56;57;97;98;99;100;101;102;70;69;68;67;66;65;57;56;55;54;53;52;51;50;49;48]); (VB [105;118;105;118;105;118;105;118;73;86;73;86;73;86;73;86;204;27;133;123;240;61;176;56;81;123;62;243;241;171;192;25;21;99;192;52;145;149;221;221;61;180;103;105;151;108;143;181;2;69;171;230;3;104;245;81;222;70;157;52;14;202;99;60;22;96;190;109;246;68;164;76;66;13;219;51;140;79;208;150;174;118;160;127;141;181;4;224;112;39;163;41;234;37;7;158;246;48;146;243;183;45;51;217]); (VB [46;13;50;12;114;204;110;235;169;42;223;196;135;141;255;76;94;118;250;135;128;214;210;138;140;26;56;219;179;116;166;207]); (VB [207;24;69;84;240;13;176;61;91;116;42;238;239;136;232;52;39;84;252;117;215;222;141;136;103;235;3;0;249;31;247;200;128;194;39;119;149;243;85;244;116;233;41;141;176;9;171;241;196;183;98;140;16;175;164;76]); (VB [48;49;50;51;52;53;54;55;56;57;97;98;99;100;101;102;70;69;68;67;66;65;57;56;55;54;53;52;51;50;49;48]); (VB [105;118;105;118;105;118;105;118;73;86;73;86;73;86;73;86;204;27;133;123;240;61;176;56;81;123;62;247;241;171;192;25;21;99;192;52;145;149;221;221;61;180;103;105;151;108;143;181;2;69;171;230;3;104;245;81;222;70;157;52;14;202;99;60;22;96;190;109;246;68;164;76;66;13;219;51;140;79;208;150;174;118;160;127;141;181;4;224;112;39;163;41;234;37;7;158;246;48;146;243;183;45;51;217]); (VL [(VZ 771); (VZ 49199); (VB [0;5;10;15;20;25;30;35;40;45;50;55;60;65;70;75;80;85;90;95;100;105;110;115;120;125;130;135;140;145;150;155;160;165;170;175;180;185;190;195;200;205;210;215;220;225;230;235]); (VL [])])]).
+Definition ex_enc : val := (VL [(VZ 2); (VB [64;97;154;240;48;27;220;225;99;5;99;124;118;248;188;167;38;179;151;10;39;57;246;76;46;253;221;119;138;27;183;236]); (VB [155;204;53;68;210;188;77;169;90;153;59;101;85;223;214;105]); (VL [(VZ 768); (VZ 5); (VB []); (VL [])]); (VB [14;35;74;21;28;245;150;55]); (VB [83;39;149;186;26;157;144;76;129;124;222;183;132;115;224;50;203;59;230;132;47;49;99;141;99;39;123;123;249;141;8;193])]).
+
+Lemma wf_examples_lemma :
+  wf_C44 ex_own = true /\ wf_C44 ex_bitflip = true /\ wf_C44 ex_enc = true /\
+  (exists a b c d buf, run_C44 ex_own = VL [VZ 1; a; b; c; d; buf]) /\
+  (exists buf, run_C44 ex_bitflip = VL [VZ 0; buf]).
+Proof. vm_compute. repeat split; repeat eexists. Qed.
